@@ -13,7 +13,7 @@ import numpy as np
 from common import *
 
 PROP_MODULES = ["HvsrVerif.Props.C10"]
-BRIDGE_MODULES = []
+BRIDGE_MODULES = ["HvsrVerif.Bridge.PySplit"]
 EXE = "drv_c10"
 
 FS_LIST = [75, 150, 300, 1000, 500, 128, 250, 100, 200, 40, 50, 60, 1, 2, 4, 8, 20, 125, 256, 512, 600, 333, 30, 15, 3, 7]
